@@ -351,6 +351,15 @@ class Machine:
         if self.waiting and self.res.count < self.res.capacity:
             raise Violation("C06.idle_slot", f"{self.waiting} waiting while {self.res.capacity - self.res.count} slot(s) free",
                             "C06.idle_slot/" + self.cls)
+        # the same for the slot a preemptor is entitled to: once the best-ranked waiting request is a preempting one and some user
+        # ranks strictly worse, the eviction has happened by the time the clock moves on - also when it only became the head
+        # because the request in front of it was cancelled or left its with-block
+        if self.cls == "PreemptiveResource" and self.waiting:
+            head = min(self.waiting, key=lambda x: x.rank(self.fifo))
+            if head.preempt and any(u.key() > head.key() for u in self.users):
+                worse = max(self.users, key=lambda u: u.key())
+                raise Violation("C06.preempt_if", f"{head} is the best-ranked waiting request, preempting, and user {worse} ranks strictly "
+                                                  f"worse, yet nobody was evicted before the clock advanced", "C06.preempt_if/at-advance")
 
     def applicable(self, cmd):
         op, a = cmd[0], cmd[1] % self.n
